@@ -24,6 +24,7 @@ MODULES = ["W2c2Verif.Props.C12"]
 GENS = [("Wasi", "gen_wasi")]
 WASIDRIVER = os.path.join(vlib.LEAN, ".lake", "build", "bin", "wasidriver")
 ABIS = ["p1", "un"]
+MAXBYTES = None          # s_maxbytes of the scratch file system, probed at run time
 RIGHTS = [wo.RIGHTS_RW, wo.R_READ, wo.R_WRITE, 0, 1 << 14, (1 << 0)]
 NAMES = ["f0", "a", "b", "d0", "d0/g", "d0/new", "nope/x", "f0/x"]
 
@@ -226,6 +227,12 @@ def classify(h, i, real_line, twin_line):
     rp, tp = real_line.split(), twin_line.split()
     if call == "fd_filestat_get" and abi == "un" and len(rp) > 1 and len(tp) > 1 and rp[1] == tp[1] == "0":
         return "unstable-filestat-overwrites-8-bytes", "wasi_unstable fd_filestat_get zeroes 64 bytes although the unstable filestat has 56: 8 guest bytes past the struct are overwritten"
+    if call in ("fd_pread", "fd_pwrite") and m and MAXBYTES is not None and MAXBYTES < m["args"][3] < (1 << 63):
+        return ("positional-offset-beyond-s_maxbytes",
+                f"{call} at an offset beyond the file system's largest file offset: the lseek of the emulation fails with EINVAL (wasi.c `{real_line[:20]}`), "
+                f"pread/pwrite give `{twin_line[:20]}` (0 bytes / EFBIG / EBADF)")
+    if call == "fd_seek" and m and m["args"][2] > 2 and rp[:2] == ["r", "28"] and tp[:2] == ["r", "8"]:
+        return "ebadf-precedence-fd_seek-bad-whence", "fd_seek with an invalid whence on an invalid descriptor returns EINVAL; lseek(2) reports EBADF"
     if len(rp) > 1 and len(tp) > 1 and rp[0] == tp[0] == "r" and rp[1] != tp[1]:
         if rp[1] == "28" and tp[1] in ("37", "55", "32", "61"):
             return "errno-table-missing-rows", f"{call}: POSIX errno maps to WASI {tp[1]}, wasiErrno() has no row for it and returns INVAL (28)"
@@ -290,6 +297,8 @@ def run(tier):
         repo = vlib.copy_repo(os.path.join(d, "repo"))
         exe = wo.build(repo, d)
         maxbytes = wo.probe_maxbytes(d)
+        global MAXBYTES
+        MAXBYTES = maxbytes
         tagged = corpus() + systematic(chk.rng, maxbytes)
         n_rand = 600 if tier == "quick" else 12000
         for _ in range(n_rand):
@@ -377,6 +386,8 @@ def replay(path):
     with vlib.scratch("c12r-") as d:
         repo = vlib.copy_repo(os.path.join(d, "repo"))
         exe = wo.build(repo, d)
+        global MAXBYTES
+        MAXBYTES = wo.probe_maxbytes(d)
         real = wo.run_histories(exe, "real", [h.lines], d)[0]
         twin = wo.run_histories(exe, "twin", [h.lines], d)[0]
     for i, l in enumerate(h.lines):
